@@ -16,7 +16,7 @@ from . import prog_engine as pe
 from . import rustc_engine as rc
 from .c09 import finish
 
-KINDS = ['split', 'flat', 'multi', 'unsized', 'unsized2', 'targs:generic', 'targs:concrete', 'targs:lifetime', 'targs:const', 'targs:bounded',
+KINDS = ['split', 'flat', 'multi', 'nested', 'nested', 'unsized', 'unsized2', 'targs:generic', 'targs:concrete', 'targs:lifetime', 'targs:const', 'targs:bounded',
          'targs:unsized_arg', 'targs:default_omitted', 'flat', 'multi']
 
 
@@ -42,8 +42,15 @@ def canon_fmt(b, s):
 def reference_program(c):
     """hand-written helper-trait encoding; None if the case is outside the straightforward scheme"""
     fams = {}
-    for i, b in enumerate(c.blocks):
-        fams.setdefault((b.trait_args, b.self_ty, tuple(sorted(b.slots))), []).append(i)
+    nested = [i for i, b in enumerate(c.blocks) if hasattr(b, 'keymap')]
+    if nested:
+        # one family under the general header; a nested member re-expresses the shared key
+        # over its own header (b.keymap: general bounded type -> its own)
+        gen = [i for i in range(len(c.blocks)) if i not in nested]
+        fams[('nested',)] = gen + nested
+    else:
+        for i, b in enumerate(c.blocks):
+            fams.setdefault((b.trait_args, b.self_ty, tuple(sorted(b.slots))), []).append(i)
     src = gp.PRELUDE + gp.world_text(c.world) + c.extra_world + gp.trait_def(c.trait_name, c.trait_generics)
     tparams = c.trait_generics.strip()
     tparams_inner = tparams[1:-1] if tparams else ''
@@ -53,9 +60,10 @@ def reference_program(c):
         # shared keys: (bounded, trait) pairs every member bounds; associated types some member binds
         def pairs(b):
             return {(bd, tr) for (bd, tr, binds, pl) in b.bounds if tr != '__outlives__'}
-        shared = set.intersection(*[pairs(b) for b in blocks])
+        general_blocks = [b for b in blocks if not hasattr(b, 'keymap')]
+        shared = set.intersection(*[pairs(b) for b in general_blocks])
         keys = []
-        for (bd, tr, binds, pl) in itertools.chain(*[b.bounds for b in blocks]):
+        for (bd, tr, binds, pl) in itertools.chain(*[b.bounds for b in general_blocks]):
             for a in binds:
                 if (bd, tr) in shared and (bd, tr, a) not in keys:
                     keys.append((bd, tr, a))
@@ -78,10 +86,11 @@ def reference_program(c):
             row = []
             for (bd, tr, a) in keys:
                 val = None
+                bd_own = getattr(b, 'keymap', {}).get(bd, bd)
                 for (bd2, tr2, binds, pl) in b.bounds:
-                    if bd2 == bd and tr2 == tr and a in binds:
+                    if bd2 == bd_own and tr2 == tr and a in binds:
                         val = b.fmt(binds[a])
-                row.append(val if val is not None else proj(b.fmt, bd, tr, a))
+                row.append(val if val is not None else proj(b.fmt, bd_own, tr, a))
             targs = [x.strip() for x in split_top(b.fmt(b.trait_args))] if b.trait_args else []
             t_lts = [x for x in targs if x.startswith("'")]
             t_rest = [x for x in targs if not x.startswith("'")]
